@@ -316,9 +316,19 @@ impl Runtime {
         let action = Action::new(pid, tid, event, &vars);
         let scher = self.clone();
         tokio::spawn(async move {
-            let _ = scher
-                .do_action(&action)
-                .map_err(|err| error!("scher::return_to_act {}", err.to_string()));
+            if let Err(err) = scher.do_action(&action) {
+                error!("scher::return_to_act {}", err.to_string());
+                // the calling act cannot take the return: fail it instead of leaving it open for ever
+                if let Some(proc) = scher.cache.proc(&action.pid, &scher) {
+                    if let Some(task) = proc.task(&action.tid) {
+                        if !task.state().is_completed() {
+                            let ctx = task.create_context();
+                            task.set_err(&err.into());
+                            let _ = ctx.emit_error();
+                        }
+                    }
+                }
+            }
         });
     }
 }
